@@ -23,35 +23,54 @@ FITTING = ("fit_constant_line", "fit_constant_polynomial", "fit_line_polynomial"
 #: operations beyond the plain call; the fitting estimators run only the three drawn per case
 OPS = ["details", "indent", "pow2", "scale", "units", "shift"]
 
-#: accuracy bound on clean curves: |idx - true| <= PHI * (number of approach samples);
-#: calibrated with tools/calibrate_c08.py (see ASSUMPTIONS)
+#: accuracy bound on clean curves: |idx - true| <= PHI * (number of approach samples).  Calibrated with
+#: tools/calibrate_c08.py as ~1.5x the largest error over 45 000 distinct clean curves (seeds 1 and 2) on the
+#: repaired tree; measured maxima: 0.125 (late side, see PHI_NOISE_FREE) / 0.399 / 0.219 / 0.300 / 0.431 / 0.317
 PHI = {
-    "deviation_from_baseline": 1.0,
-    "fit_constant_line": 1.0,
-    "fit_constant_polynomial": 1.0,
-    "fit_line_polynomial": 1.0,
-    "frechet_direct_path": 1.0,
-    "gradient_zero_crossing": 1.0,
+    "deviation_from_baseline": 0.2,
+    "fit_constant_line": 0.6,
+    "fit_constant_polynomial": 0.33,
+    "fit_line_polynomial": 0.45,
+    "frechet_direct_path": 0.65,
+    "gradient_zero_crossing": 0.48,
 }
+#: tighter bound for noise-free curves (measured maximum 0.014).  On low-noise curves this estimator is bounded
+#: on the late side only: it triggers on the first sample above twice the largest deviation among the first 10 %
+#: of the samples, which a later baseline sample exceeds by chance (measured: up to 0.70 too early)
+PHI_NOISE_FREE = {"deviation_from_baseline": 0.03}
+ONE_SIDED_WITH_NOISE = ("deviation_from_baseline",)
 
 RULE = ("Hypothesis draws (a) 'synth': a synthetic approach+retract curve (5 models, parameters over 4 decades, "
         "60-3000 samples per segment, baseline 20-80 % of the approach samples, linear/jittered/quadratic "
-        "sampling, noise 0..3e-2 of the force range, tilt up to +-0.3 force ranges per travel, baseline offset) "
+        "sampling, noise 0 or 1e-5..3e-2 of the force range, tilt 0 or +-1e-3..0.3 force ranges per travel, baseline "
+        "offset) "
         "and the transformations x2^j (j in -20..20), xc (c log-uniform 1e-3..1e3), x1e9 (nN units), +s "
         "(|s| <= 10 force ranges) - all six estimators run on every curve, the three fitting estimators run the "
         "plain call and three drawn operations, the others all six; (b) 'recorded': the 20 well-formed recorded "
         "curves with the same transformations; (c) 'clean': synthetic curves without tilt and noise in "
         "{0, 1e-4, 1e-3}, compared with the true contact index; (d) 'degenerate': explicit arrays of 0-12 samples, "
-        "constant, monotonically decreasing and no-baseline (contact from the first sample) arrays of 1-400 samples. "
+        "constant, plateau (constant up to the maximum at the very end), monotonically decreasing and no-baseline "
+        "(contact from the first sample, with or without retract part and noise) arrays of 1-400 samples, in N, nN, "
+        "pN and unit scale. "
         "non-trivial = (a) baseline of >= 20 samples, (b)-(d) every case; distinct = distinct case record")
 ASSUMPTIONS = [
     "'valid integer index' = a Python int or numpy integer (not bool, not float: the callers use it in force[:idp] and "
     "tip[cpid]) with 0 <= idx < len(force); an index at or beyond the force maximum (outside the clipped approach the "
     "estimator works on, but inside the array that was passed in) is only counted (class index_at_or_past_force_maximum)",
     "true contact index of a synthetic curve = first approach sample with tip position below the contact point; "
-    "accuracy bound: |idx - true| <= phi x (number of approach samples) with phi = %r, calibrated as ~1.5-2x the "
-    "largest error over >= 20000 clean curves (noise in {0, 1e-4, 1e-3} of the force range, no tilt) on the repaired "
-    "tree (tools/calibrate_c08.py); the measured maxima of a run are reported as max_err_<estimator>" % (PHI,),
+    "accuracy bound: |idx - true| <= phi x (number of approach samples; stricter than the full curve length) with "
+    "phi = %r, calibrated as ~1.5x the largest error over 45000 distinct clean curves (noise in {0, 1e-4, 1e-3} of the "
+    "force range, no tilt, all five models, baseline 20-80 %%) on the repaired tree (tools/calibrate_c08.py: measured "
+    "0.125 late side / 0.399 / 0.219 / 0.300 / 0.431 / 0.317 in the order of the estimator list); the maxima of a run "
+    "are reported as max_err_<estimator>" % (PHI,),
+    "deviation_from_baseline: noise-free curves are bounded by phi = %r (measured 0.014); on low-noise curves only "
+    "the late side (idx - true <= phi) is asserted, because the documented algorithm triggers on the first sample above "
+    "twice the largest deviation among the first 10 %% of the samples and a later baseline sample exceeds that by "
+    "chance (measured: up to 0.70 of the approach too early; reported as max_early_deviation_from_baseline)"
+    % PHI_NOISE_FREE["deviation_from_baseline"],
+    "the bounds are wide because the estimators are biased by construction (frechet_direct_path: 'the length of the "
+    "baseline influences the returned contact point'; fit_constant_line fits a line to a curved indentation; "
+    "gradient_zero_crossing needs > 50 gradient samples and otherwise falls back to the centre)",
     "shifts are bounded by 10x the force range (beyond that float64 cancellation, not the estimator, moves the index) and "
     "generated noise / tilt amplitudes are exactly 0 or >= 1e-5 / 1e-3 of the force range (a baseline scatter of 1e-90 "
     "force ranges is representable around 0 but is erased by any shift, which legitimately changes a threshold that "
@@ -237,12 +256,18 @@ def check_wellformed(case, ctx, force, make_idnt, true_idx=None, classes=()):
             if op in ops:
                 ok, i3 = call(ctx, "raises", dict(desc, call=op), force * fac, m)
                 if ok:
+                    if is_index(i3) and abs(int(i3) - int(idx)) <= 1:
+                        ctx.extra["max_index_change_scale"] = max(ctx.extra.get("max_index_change_scale", 0),
+                                                                  abs(int(i3) - int(idx)))
                     ctx.check(is_index(i3) and abs(int(i3) - int(idx)) <= 1, "scale-changes-index", desc,
                               f"idx({fac!r} f) = {i3!r}, idx(f) = {idx} ({n} samples)")
         if "shift" in ops:
             s = case["shift"] * frange
             ok, i4 = call(ctx, "raises", dict(desc, call="shift"), force + s, m)
             if ok:
+                if is_index(i4) and abs(int(i4) - int(idx)) <= 1:
+                    ctx.extra["max_index_change_shift"] = max(ctx.extra.get("max_index_change_shift", 0),
+                                                              abs(int(i4) - int(idx)))
                 ctx.check(is_index(i4) and abs(int(i4) - int(idx)) <= 1, "shift-changes-index", desc,
                           f"idx(f + {case['shift']!r} ranges) = {i4!r}, idx(f) = {idx} ({n} samples)")
 
@@ -288,12 +313,17 @@ def check_clean(case, ctx):
         if not ctx.check(is_index(idx) and 0 <= idx < n_app + int(curve["n_ret"]), "index-out-of-range", desc,
                          f"index {idx!r} for {n_app} + {curve['n_ret']} samples"):
             continue
-        err = abs(int(idx) - true_idx) / n_app
-        if err <= PHI[m]:
-            ctx.extra["max_err_" + m] = max(ctx.extra.get("max_err_" + m, 0.0), err)
-        ctx.check(err <= PHI[m], "far-from-true-contact", dict(desc, model=curve["model"]),
-                  f"index {int(idx)}, true contact index {true_idx}: error {err:.3f} of the {n_app} approach samples "
-                  f"> phi = {PHI[m]} (noise {curve['noise']}, sampling {curve['sampling']})")
+        err = (int(idx) - true_idx) / n_app
+        phi = PHI[m] if curve["noise"] else PHI_NOISE_FREE.get(m, PHI[m])
+        if curve["noise"] and m in ONE_SIDED_WITH_NOISE and err < 0:
+            ctx.extra["max_early_" + m] = max(ctx.extra.get("max_early_" + m, 0.0), -err)
+            continue
+        if abs(err) <= phi:
+            key = "max_err_" + m + ("_noise_free" if m in PHI_NOISE_FREE and not curve["noise"] else "")
+            ctx.extra[key] = max(ctx.extra.get(key, 0.0), abs(err))
+        ctx.check(abs(err) <= phi, "far-from-true-contact", dict(desc, model=curve["model"]),
+                  f"index {int(idx)}, true contact index {true_idx}: error {err:+.3f} of the {n_app} approach samples, "
+                  f"phi = {phi} (noise {curve['noise']}, sampling {curve['sampling']})")
 
 
 def check_degenerate(case, ctx):
@@ -337,9 +367,9 @@ def run(ctx):
         from vlib.runner import HarnessError
         raise HarnessError(f"estimator list changed: {ids}")
     ctx.extra["estimators"] = sorted(ids)
-    ctx.hypothesis(st_degenerate(), check_case, ctx.scale(1600, 60000), label="degenerate")
-    ctx.hypothesis(st_clean(), check_case, ctx.scale(400, 16000), label="clean")
-    ctx.hypothesis(st_synth(), check_case, ctx.scale(280, 8000), label="synth")
+    ctx.hypothesis(st_degenerate(), check_case, ctx.scale(1200, 48000), label="degenerate")
+    ctx.hypothesis(st_clean(), check_case, ctx.scale(320, 12800), label="clean")
+    ctx.hypothesis(st_synth(), check_case, ctx.scale(240, 7200), label="synth")
     if ctx.tier == "quick":
         # every well-formed recorded curve once; transformations derived from the run seed
         rng = np.random.RandomState(ctx.seed)
